@@ -74,8 +74,8 @@ func c01MissedHostProbe(c *fw.Ctx) {
 		revHeight := s.ChildHeight()
 		rp := map[string]any{"seed": seed, "era": era, "height": revHeight, "contract": fmt.Sprint(target.ID),
 			"revision_block": fw.Hex(chain.Encode(types.V2Block(revBlock))),
-			"before": fmt.Sprintf("renter %v host %v missed-host %v", cur.RenterOutput.Value, cur.HostOutput.Value, cur.MissedHostValue),
-			"after":  fmt.Sprintf("renter %v host %v missed-host %v", rev.RenterOutput.Value, rev.HostOutput.Value, rev.MissedHostValue)}
+			"before":         fmt.Sprintf("renter %v host %v missed-host %v", cur.RenterOutput.Value, cur.HostOutput.Value, cur.MissedHostValue),
+			"after":          fmt.Sprintf("renter %v host %v missed-host %v", rev.RenterOutput.Value, rev.HostOutput.Value, rev.MissedHostValue)}
 		var err error
 		panicked, msg := fw.Recover(func() { _, err = s.Apply(revBlock, noSupp) })
 		res.Eval(fmt.Sprintf("missed-host/%s/%d", era, seed), true)
